@@ -60,7 +60,8 @@ func (*c13Prop) Plans(tier string) []Plan {
 	return []Plan{{Name: "trees", Workers: 16, Runs: 2000000, MaxTime: 600e9, Size: 9}, {Name: "small-trees", Workers: 16, Runs: 2000000, MaxTime: 240e9, Size: 3}}
 }
 
-var c13Interps = []string{"", "plain", "plain", "checker", "checker", "transformer", "both", "select0", "selectlast", "array", "libnil"}
+// the first 9 entries are valid on a child-less non-terminal too
+var c13Interps = []string{"", "plain", "plain", "checker", "checker", "transformer", "both", "transformer-same", "both-same", "transformer-child", "select0", "selectlast", "array", "libnil"}
 
 func genTree(r *Rand, depth, maxDepth int, budget *int) TNode {
 	*budget--
@@ -75,7 +76,7 @@ func genTree(r *Rand, depth, maxDepth int, budget *int) TNode {
 		case 3:
 			return TNode{Kind: "checkable"}
 		case 4:
-			return TNode{Kind: "nt", Interp: c13Interps[r.Intn(7)]} // empty non-terminal (no select/array on it)
+			return TNode{Kind: "nt", Interp: c13Interps[r.Intn(9)]} // empty non-terminal (no select/array on it)
 		default:
 			return TNode{Kind: "term"}
 		}
@@ -97,7 +98,7 @@ func genTree(r *Rand, depth, maxDepth int, budget *int) TNode {
 				if i > 0 {
 					t.Kids = append(t.Kids, TNode{Kind: "term"})
 				}
-				kv := TNode{Kind: "nt", Interp: c13Interps[r.Intn(7)], Kids: []TNode{{Kind: "term"}, {Kind: "term"}, genTree(r, depth+2, maxDepth, budget)}}
+				kv := TNode{Kind: "nt", Interp: c13Interps[r.Intn(9)], Kids: []TNode{{Kind: "term"}, {Kind: "term"}, genTree(r, depth+2, maxDepth, budget)}}
 				t.Kids = append(t.Kids, kv)
 			}
 			return t
@@ -162,7 +163,11 @@ func (t *TNode) valid(root bool) error {
 					return fmt.Errorf("object: bad key-value child")
 				}
 			}
-		case "", "plain", "checker", "transformer", "both", "array", "libnil":
+		case "transformer-child":
+			if len(t.Kids) == 0 {
+				return fmt.Errorf("transformer-child on empty non-terminal")
+			}
+		case "", "plain", "checker", "transformer", "both", "transformer-same", "both-same", "array", "libnil":
 		default:
 			return fmt.Errorf("unknown interpreter %q", t.Interp)
 		}
@@ -328,10 +333,20 @@ func (h *hChecker) StaticCheck(userCtx interface{}, node parsley.NonTerminalNode
 
 type hTransformer struct{ hInterp }
 
+// TransformNode: "transformer"/"both" return a replacement, "...-same" hands back the very
+// node it was given (a transformer that declines), "transformer-child" returns the node's
+// first child untransformed. In every case the transformer owns the subtree: the
+// library must not descend into the children itself.
 func (h *hTransformer) TransformNode(userCtx interface{}, node parsley.Node) (parsley.Node, parsley.Error) {
 	id := h.run.idOf(node)
 	if h.run.callback("tnode", id, userCtx, "") {
 		return nil, parsley.NewErrorf(parsley.Pos(id), "fault@%d", id)
+	}
+	switch h.kind {
+	case "transformer-same", "both-same":
+		return node, nil
+	case "transformer-child":
+		return node.(parsley.NonTerminalNode).Children()[0], nil
 	}
 	return h.run.replacement(id), nil
 }
@@ -353,10 +368,10 @@ func (r *c13Run) interp(t *TNode) parsley.Interpreter {
 		return &hInterp{r, "plain"}
 	case "checker":
 		return &hChecker{hInterp{r, "checker"}}
-	case "transformer":
-		return &hTransformer{hInterp{r, "transformer"}}
-	case "both":
-		return &hBoth{hInterp{r, "both"}}
+	case "transformer", "transformer-same", "transformer-child":
+		return &hTransformer{hInterp{r, t.Interp}}
+	case "both", "both-same":
+		return &hBoth{hInterp{r, t.Interp}}
 	case "select0":
 		return interpreter.Select(0)
 	case "selectlast":
@@ -446,14 +461,18 @@ func (x *mTree) isNT() bool { return x.t.Kind == "nt" }
 
 func (x *mTree) hasChecker() bool {
 	switch x.t.Interp {
-	case "checker", "both", "select0", "selectlast":
+	case "checker", "both", "both-same", "select0", "selectlast":
 		return x.isNT()
 	}
 	return false
 }
 
 func (x *mTree) hasTransformer() bool {
-	return x.isNT() && (x.t.Interp == "transformer" || x.t.Interp == "both")
+	switch x.t.Interp {
+	case "transformer", "both", "transformer-same", "both-same", "transformer-child":
+		return x.isNT()
+	}
+	return false
 }
 
 // initial (constructor-given) schema of a node
@@ -555,6 +574,12 @@ func (m *c13Model) transform(x *mTree) (string, string) {
 	case x.hasTransformer():
 		if m.callback("tnode", x.id, "") {
 			return "", fmt.Sprintf("%d:fault@%d", x.id, x.id)
+		}
+		switch x.t.Interp {
+		case "transformer-same", "both-same":
+			return m.shape(x), "" // the node itself, its subtree untouched
+		case "transformer-child":
+			return m.shape(x.kids[0]), ""
 		}
 		return fmt.Sprintf("R%d", 1000+x.id), ""
 	case x.isNT():
